@@ -14,6 +14,7 @@ import (
 	"path/filepath"
 	"regexp"
 	"sort"
+	"strconv"
 	"strings"
 	"testing"
 	"testing/synctest"
@@ -44,6 +45,10 @@ type c18BootSpec struct {
 	Services []string `json:"services"`
 	CrashAt  string   `json:"crash_at,omitempty"`
 	Token    string   `json:"token,omitempty"` // state planted before this boot: "", absent, empty, prefix:N
+	// Overlap: while this boot is up (its store open), a second honeytrap is started on the same data directory -
+	// an overlapping restart, or a second instance started by mistake.  The second one may refuse to start; the
+	// identity must be what it was, now and at every later boot.
+	Overlap bool `json:"overlap,omitempty"`
 }
 
 type c18Report struct {
@@ -114,6 +119,9 @@ func genC18(seed uint64, idx int, tier string) *Scenario {
 		if b > 0 && r.Chance(0.7) {
 			bs.Services = append([]string(nil), hist[0].Services...)
 		}
+		if b > 0 && bs.CrashAt == "" && bs.Token == "" && b < n-1 && r.Chance(0.3) {
+			bs.Overlap = true // a second instance is started beside this (completed, running) boot
+		}
 		hist = append(hist, bs)
 	}
 	hj, _ := json.Marshal(hist)
@@ -160,7 +168,26 @@ func runC18(t *testing.T, sc *Scenario) Result {
 			}
 			delete(first, "token")
 		}
-		rep := c18RunBoot(dir, bs)
+		var rep c18Report
+		if bs.Overlap {
+			var second c18Report
+			rep, second = c18RunOverlapped(dir, bs)
+			res.fault("second-instance-started-beside-a-running-one", 1)
+			if second.Err == "" && second.Identity != nil {
+				// the second instance came up as well: it is the same sensor
+				for item, v := range second.Identity {
+					if strings.HasPrefix(v, "error:") {
+						continue
+					}
+					if old, ok := first[item]; ok && old != v {
+						res.Violate("identity-changed", item, fmt.Sprintf("a second instance started beside boot %d reports %s = %s, boot %d reported %s", bi, item, short(v, 60), firstBoot[item], short(old, 60)))
+						return res
+					}
+				}
+			}
+		} else {
+			rep = c18RunBoot(dir, bs)
+		}
 		res.Runs++
 		trace = append(trace, fmt.Sprintf("boot%d services=%v crash=%q token=%q -> crashed=%v err=%q", bi, bs.Services, bs.CrashAt, bs.Token, rep.Crashed, rep.Err))
 		if rep.Crashed {
@@ -212,7 +239,37 @@ func runC18(t *testing.T, sc *Scenario) Result {
 	return res
 }
 
+// c18RunOverlapped starts the boot, waits until it is up, runs a second complete boot attempt on the same directory
+// beside it, and returns the first boot's report (the second one's is returned as well: it may have refused to start).
+func c18RunOverlapped(dir string, bs c18BootSpec) (c18Report, c18Report) {
+	type r struct{ rep c18Report }
+	first := make(chan c18Report, 1)
+	upFile, err := os.CreateTemp("", "htsim-c18-up-")
+	if err != nil {
+		return c18Report{Err: "infra: " + err.Error()}, c18Report{}
+	}
+	upFile.Close()
+	defer os.Remove(upFile.Name())
+	go func() {
+		first <- c18RunBootEnv(dir, bs, []string{"VERIF_BOOT_HOLD_MS=4000", "VERIF_BOOT_UP_FILE=" + upFile.Name()})
+	}()
+	// wait for the "up" mark (the first instance holds the store)
+	deadline := time.Now().Add(120 * time.Second)
+	for time.Now().Before(deadline) {
+		if b, _ := os.ReadFile(upFile.Name()); len(b) > 0 {
+			break
+		}
+		time.Sleep(20 * time.Millisecond)
+	}
+	second := c18RunBootEnv(dir, c18BootSpec{Services: bs.Services}, nil)
+	return <-first, second
+}
+
 func c18RunBoot(dir string, bs c18BootSpec) c18Report {
+	return c18RunBootEnv(dir, bs, nil)
+}
+
+func c18RunBootEnv(dir string, bs c18BootSpec, extraEnv []string) c18Report {
 	out, err := os.CreateTemp("", "htsim-c18-out-")
 	if err != nil {
 		return c18Report{Err: "infra: " + err.Error()}
@@ -223,6 +280,7 @@ func c18RunBoot(dir string, bs c18BootSpec) c18Report {
 	cmd.Env = append(os.Environ(),
 		"VERIF_PROP=C18BOOT", "VERIF_BOOT_DIR="+dir, "VERIF_BOOT_SERVICES="+strings.Join(bs.Services, ","),
 		"VERIF_CRASH_AT="+bs.CrashAt, "VERIF_OUT="+out.Name(), "VERIF_SCENARIO=", "VERIF_SEEDS=")
+	cmd.Env = append(cmd.Env, extraEnv...)
 	cmd.Stdout, cmd.Stderr = nil, nil
 	done := make(chan error, 1)
 	if err := cmd.Start(); err != nil {
@@ -347,6 +405,13 @@ func c18Boot(t *testing.T, emit func(interface{})) {
 			}
 			id["agent-key"] = hex.EncodeToString(kp.PublicKey[:])
 		}
+	}
+	if ms, _ := strconv.Atoi(os.Getenv("VERIF_BOOT_HOLD_MS")); ms > 0 {
+		// stay up (store open) while the parent starts a second instance on the same directory
+		if f := os.Getenv("VERIF_BOOT_UP_FILE"); f != "" {
+			os.WriteFile(f, []byte("up\n"), 0600)
+		}
+		time.Sleep(time.Duration(ms) * time.Millisecond)
 	}
 	// ---- phase B: boot Run in a bubble and look at the identity from outside
 	dataDir = dir
